@@ -1,0 +1,7 @@
+//go:build !verif
+
+package comet
+
+// verifPoint is a no-op unless the package is built with the "verif" build tag.
+// See verif_hooks_on.go.
+func verifPoint(string, ...any) {}
